@@ -778,3 +778,23 @@ Proof.
   - cbn [snd]. rewrite Ascii.eqb_refl. rewrite (span_app_stop class2 t rest Ht Hrest). reflexivity.
   - right. exists slash, (t ++ rest)%string. split; [reflexivity|exact class1_slash].
 Qed.
+
+(* the capacity a relay hands to its connections is always a legal one, is the configured value when
+   that is legal, and is 256 - never a one-slot queue - when it is not *)
+Lemma effective_cap_legal : forall z, 1 <= effective_cap z <= 512.
+Proof.
+  intros z. unfold effective_cap.
+  destruct ((z <? 1) || (512 <? z))%Z eqn:E; lia.
+Qed.
+
+Lemma effective_cap_in_range : forall z, (1 <= z <= 512)%Z -> effective_cap z = Z.to_nat z.
+Proof.
+  intros z Hz. unfold effective_cap.
+  destruct ((z <? 1) || (512 <? z))%Z eqn:E; [lia|reflexivity].
+Qed.
+
+Lemma effective_cap_fallback : forall z, (z < 1 \/ 512 < z)%Z -> effective_cap z = 256.
+Proof.
+  intros z Hz. unfold effective_cap.
+  destruct ((z <? 1) || (512 <? z))%Z eqn:E; [reflexivity|lia].
+Qed.
